@@ -72,3 +72,10 @@ package feeder
 //@   modifies heap
 //@   ghostmodifies n_fo, fo_id, fo_origin, fo_v, fo_w
 //@   ensures[ghost] n_fo == old(n_fo) + 1 && fo_id == opts.LogID && fo_origin == opts.LogOrigin && fo_v == opts.LogSigVerifier && fo_w == opts.Witness
+
+// One cycle of Run (the body of its loop is this closure; the ticker/select loop around it is outside the subset):
+// the feed cycle is started with exactly the options Run was given.
+//@ func Run$1
+//@   requires opts.Witness != nil && opts.LogSigVerifier != nil && opts.FetchCheckpoint != nil && opts.FetchProof != nil
+//@   modifies heap
+//@   atcall[C13.run,C12.run] FeedOnce: $arg2 == opts
